@@ -88,6 +88,7 @@ type Scenario struct {
 	MaxAdv           int
 	MaxReloads       int
 	MaxStates        int
+	NoMergeDepth     int // seqx: every history of length <= NoMergeDepth+1 is executed whatever the canonical key says
 
 	hints sync.Map // history key -> *hint
 }
@@ -756,12 +757,13 @@ func (s *Scenario) Enabled(h []Ev) []Ev {
 // Explore runs the BFS for one property.
 func (s *Scenario) Explore(r *ev.Run, prefix string) seqx.Stats {
 	return seqx.Explore(r, seqx.Scenario[Ev]{
-		Name:      s.Name,
-		Enabled:   s.Enabled,
-		Exec:      func(h []Ev) (string, string, *seqx.Failure) { return s.Exec(r, prefix, h) },
-		MaxDepth:  s.Depth,
-		Workers:   16,
-		MaxStates: s.MaxStates,
+		Name:         s.Name,
+		Enabled:      s.Enabled,
+		Exec:         func(h []Ev) (string, string, *seqx.Failure) { return s.Exec(r, prefix, h) },
+		MaxDepth:     s.Depth,
+		Workers:      16,
+		MaxStates:    s.MaxStates,
+		NoMergeDepth: s.NoMergeDepth,
 	})
 }
 
